@@ -200,6 +200,42 @@ func ruleRecEntry(c *Ctx, r *R) {
 		}
 	}
 	r.check(flagOK, "(*object).call:eval-flag", c.Pos(objCall.Pos()), "the direct-eval branch is taken only for the function object stored in runtime.eval", "the eval flag of (*object).call is no longer narrowed to `o == runtime.eval`: any native function called with eval=true skips the scope")
+	// who writes scope.depth: enterScope (depth = outer.depth + 1) and the eval built-in's increment / deferred decrement.
+	// Any other writer can take a frame out of the count (a native frame "kept at its caller's depth").
+	for _, fn := range c.AllSrcFuncs("") {
+		ordw := 0
+		for _, b := range fn.Blocks {
+			for _, ins := range b.Instrs {
+				st, ok := ins.(*ssa.Store)
+				if !ok || !isFieldAddr(st.Addr, "scope", "depth") {
+					continue
+				}
+				ordw++
+				owner := fn
+				for owner.Parent() != nil {
+					owner = owner.Parent()
+				}
+				key := fmt.Sprintf("depth-writer:%s#%d", ssaFuncName(fn), ordw)
+				switch {
+				case owner == enterScope:
+					r.ok(key, c.Pos(instrPos(st)), "enterScope numbers the scope it pushes")
+				case owner == evalFn:
+					bo, isBin := st.Val.(*ssa.BinOp)
+					switch {
+					case isBin && bo.Op == token.ADD:
+						r.ok(key, c.Pos(instrPos(st)), "the eval built-in counts a direct eval")
+					case isBin && bo.Op == token.SUB:
+						r.check(fn.Parent() != nil && isDeferredLiteral(fn), key, c.Pos(instrPos(st)), "the decrement runs in a deferred function: it also runs when the eval code throws",
+							"builtinGlobalEval decrements scope.depth in straight-line code after evaluating: an exception (or the RangeError of the limit itself) leaving the eval code skips it, so every caught failure inside a direct eval leaks one level of the caller's depth and the limit no longer admits the configured nesting")
+					default:
+						r.bad(key, c.Pos(instrPos(st)), "builtinGlobalEval stores something other than depth+1 / depth-1 to scope.depth")
+					}
+				default:
+					r.bad(key, c.Pos(instrPos(st)), fmt.Sprintf("%s writes scope.depth: only enterScope (and the eval built-in's paired increment / deferred decrement) may, otherwise frames drop out of the count the stack depth limit is compared with (native-only recursion such as join on a self-containing array then never reaches the limit and exhausts the Go stack)", ssaFuncName(fn)))
+				}
+			}
+		}
+	}
 	// the eval built-in
 	evalAccount := func(ins ssa.Instruction) bool {
 		if isAccount(ins) {
